@@ -14,6 +14,7 @@ import (
 
 	"github.com/goghcrow/yae"
 	"github.com/goghcrow/yae/closure"
+	"github.com/goghcrow/yae/debug"
 	"github.com/goghcrow/yae/interp"
 	"github.com/goghcrow/yae/parser/oper"
 	"github.com/goghcrow/yae/types"
@@ -52,7 +53,7 @@ func engineHistoryCase(r *rand.Rand) Case {
 	srcOf, backendOf, regAt := map[int]string{}, map[int]string{}, map[string]int{}
 	backend := "vm"
 	vals := genVals(r, engineVars)
-	backends := []string{"vm", "closure", "interp"}
+	backends := []string{"vm", "closure", "interp", "debug"}
 	c := Case{Tags: []string{"gen:engine-history"}, Nontriv: true}
 	if guardBegin("engine history") {
 		return crashCase("engine history")
@@ -92,6 +93,8 @@ func engineHistoryCase(r *rand.Rand) Case {
 				e.UseCompiler(vm.Compile)
 			case "closure":
 				e.UseCompiler(closure.Compile)
+			case "debug":
+				e.UseCompiler(closure.DebugCompile)
 			default:
 				e.UseCompiler(interp.Interp)
 			}
@@ -164,6 +167,9 @@ func engineHistoryCase(r *rand.Rand) Case {
 			for _, v := range vars {
 				env1.Put(v.Name, vs[v.Name])
 			}
+			if backendOf[k] == "debug" {
+				env1.Dgb = debug.NewRecord() // as yae.Debug does; the record is not compared here
+			}
 			trace = nil
 			var res *val.Val
 			var rerr error
@@ -219,7 +225,7 @@ func engineHistoryCase(r *rand.Rand) Case {
 func init() {
 	register(&Stream{
 		Name: "engine",
-		Rule: "random histories of 5-14 API calls on ONE yae.Expr: RegisterFun (12 host functions plus 8 that collide with built-ins or with each other: same monomorphic key with another behaviour, polymorphic signature under a built-in's name), RegisterOperator, UseCompiler (vm / closure / interp), UseBuiltIn(false), Compile (fixed programs incl. ill-typed and unparseable ones, and type-directed random ones over the functions registered so far), invocation of ANY Callable obtained so far (same values, fresh values, a missing name, a mistyped name); the model's Engine.run answers the whole history, compared output by output. Non-trivial = every history; distinct = distinct request.",
+		Rule: "random histories of 5-14 API calls on ONE yae.Expr: RegisterFun (12 host functions plus 8 that collide with built-ins or with each other: same monomorphic key with another behaviour, polymorphic signature under a built-in's name), RegisterOperator, UseCompiler (vm / closure / interp / closure.DebugCompile), UseBuiltIn(false), Compile (fixed programs incl. ill-typed and unparseable ones, and type-directed random ones over the functions registered so far), invocation of ANY Callable obtained so far (same values, fresh values, a missing name, a mistyped name); the model's Engine.run answers the whole history, compared output by output. Non-trivial = every history; distinct = distinct request.",
 		Gen: func(r *rand.Rand, n int, thorough bool) []Case {
 			var cs []Case
 			for i := 0; i < n; i++ {
